@@ -5,7 +5,7 @@ VARIABLES l, cnt
 Init == l = 1 /\ cnt = [events |-> 0, nontrivial |-> 0, implcalls |-> 0, shortcircuits |-> 0, argerrors |-> 0]
 Next == /\ l <= Len(Trace)
         /\ LET e == Trace[l] IN
-           /\ \A x \in CallFailedRules(e) : PrintT(<<"VIOL", l, x>>)
+           /\ \A x \in CallFailedRules(e) \cup Reread(e) : PrintT(<<"VIOL", l, x>>)
            /\ cnt' = [cnt EXCEPT !.events = @ + 1, !.nontrivial = @ + (IF CallNontrivialF(e) THEN 1 ELSE 0),
                                  !.implcalls = @ + (IF ImplCbs(e) # {} THEN 1 ELSE 0),
                                  !.shortcircuits = @ + (IF e.out.ok /\ ImplCbs(e) = {} THEN 1 ELSE 0),
